@@ -835,13 +835,16 @@ int main(int argc, char** argv) {
                         const int nb = form == 0 ? n : n / 2 + 1;
                         arr_cmplx X(nb);
                         for (int k = 0; k < nb; ++k) X[k] = cmplx_t(1.0 + k, form == 0 && k > 0 ? 0.25 * k : 0.0);
-                        for (int api = 0; api < 2; ++api) {
-                            fb::label(api == 0 ? "irfft(X,n) odd n" : "IfftPlanR(n) odd n");
+                        for (int api = 0; api < (form == 0 ? 3 : 2); ++api) {   // api 2: the one-argument irfft(X), whose length is X.size()
+                            fb::label(api == 0 ? "irfft(X,n) odd n" : (api == 1 ? "IfftPlanR(n) odd n" : "irfft(X) odd length"));
                             bool threw = false;
                             int got = -1;
                             try {
                                 if (api == 0) {
                                     arr_real y = irfft(X, n);
+                                    got = y.size();
+                                } else if (api == 2) {
+                                    arr_real y = irfft(X);
                                     got = y.size();
                                 } else {
                                     IfftPlanR plan(n);
@@ -856,7 +859,7 @@ int main(int argc, char** argv) {
                             ++c.evals;
                             ++c.nontriv;
                             if (!threw)
-                                c.fail(api == 0 ? "irfft(X,n)" : "IfftPlanR", fmt("odd n=%d accepted: returned %d samples", n, got), "a C++ exception",
+                                c.fail(api == 0 ? "irfft(X,n)" : (api == 1 ? "IfftPlanR" : "irfft(X)"), fmt("odd n=%d accepted: returned %d samples", n, got), "a C++ exception",
                                        P().kv("n", n).kv("form", form == 0 ? "all-n-bins" : "first-n/2+1-bins").kv("kind", "odd-not-rejected"));
                         }
                     }
